@@ -316,6 +316,7 @@ theorem sr_execWith {ex : St → BOp → St} (hex : SRex ex) : SRex (execWith ex
   | provide ty v => exact h.prim (CorePrim.provide _ _ _)
   | use ty => exact h.prim (CorePrim.useCtx _ _)
   | take ty => exact h.prim (CorePrim.takeCtx _ _)
+  | update ty d => exact h.prim (CorePrim.updateCtx _ _ _)
   | effect b => exact sr_newEffect h b _
   | memo b => exact sr_newMemo h b
   | newOwner => exact sr_newOwnerHandle h
@@ -354,6 +355,7 @@ theorem sr_execHandlerTok (a st : St) (op : BOp) (h : SR a st) : SR a (execHandl
   | nested tag => exact h
   | provide ty v => exact h
   | take ty => exact h
+  | update ty d => exact h
   | effect b => exact h
   | memo b => exact h
   | newOwner => exact h
